@@ -21,7 +21,7 @@ DEMO=$(ls "$SRC"/demo.c "$SRC"/demo.cpp 2>/dev/null | head -1)
 INC=/tmp/confirm-$ID-inc; mkdir -p $INC; ln -sfn $C/private $INC/dispatch     # <dispatch/private.h>
 for T in patched clean; do
   [ $T = patched ] && B=$W/_build || B=$C/_build
-  clang-16 -O1 -fblocks $( [ -f "$SRC/demo.flags" ] && cat "$SRC/demo.flags" ) -I$C -I$C/private -I$INC -o /tmp/confirm-$ID-demo-$T "$DEMO" -L$B -ldispatch -lBlocksRuntime -lpthread -Wl,-rpath,$B >>"$LOG" 2>&1 || { echo "demo does not compile" >>"$LOG"; exit 1; }
+  clang-16 -O1 -fblocks -I$C -I$C/private -I$INC $( [ -f "$SRC/demo.flags" ] && cat "$SRC/demo.flags" ) -o /tmp/confirm-$ID-demo-$T "$DEMO" -L$B -ldispatch -lBlocksRuntime -lpthread -Wl,-rpath,$B >>"$LOG" 2>&1 || { echo "demo does not compile" >>"$LOG"; exit 1; }
 done
 pf=0; cf=0
 for i in 1 2 3; do timeout 120 /tmp/confirm-$ID-demo-patched >/dev/null 2>&1 || pf=$((pf+1)); timeout 120 /tmp/confirm-$ID-demo-clean >/dev/null 2>&1 || cf=$((cf+1)); done
